@@ -109,6 +109,20 @@ func c02Scenarios(tier string) []*Scenario {
 			out[len(out)-1].Name = "unsendable|" + rpcName(rpc)
 		}
 	}
+	// calls made with a context that can never be cancelled (context.Background())
+	for _, tr := range []string{"inproc", "http"} {
+		for _, rpc := range []RPC{
+			{Kind: "unary", Client: []string{"I"}, Handler: []string{"dec", "ret:st:5"}},
+			{Kind: "unary", Client: []string{"I"}, Handler: []string{"dec", "ret:plain"}},
+			{Kind: "ss", Client: []string{"S0", "C", "R*", "R"}, Handler: []string{"r", "s0", "ret:st:5"}},
+			{Kind: "cs", Client: []string{"S0", "C", "R*", "R"}, Handler: []string{"r*", "s0", "t:b", "ret:st:5"}},
+		} {
+			add(tr, "", rpc)
+			sc := out[len(out)-1]
+			sc.Opts = "bgctx"
+			sc.Name += "|ctx=background"
+		}
+	}
 	// the handlers behind a middleware whose ResponseWriter has no Flush (the reply leaves when the handler returns)
 	for _, rpc := range []RPC{
 		{Kind: "unary", Client: []string{"I"}, Handler: []string{"dec", "ret:st:5"}},
